@@ -38,7 +38,7 @@ def classify(mech, case, got, ref):
 
 
 def classify_js(mech, case, got, ref):
-    return classify(mech, case, got, ref)
+    return common.classify_known_js(mech, case, got, ref)
 
 
 def gen_numeric_table(rng):
